@@ -29,7 +29,7 @@ TRUSTED = ['the handlers of the converters are exercised, not modelled (1700 lin
 ASSUMPTIONS = ['tokens are compared after white-space collapsing; text the converter legitimately adds (footnote numbers, list bullets in MoinMoin) is ignored by the subsequence test']
 
 TXT = P.NS['text']; OFF = P.NS['office']
-ALPHA = ['a', 'b', 'é', '中', '&', '<', '>', '"', "'", ']', ' ', 'x&y', '<b>', 'a"b', "it's"]
+ALPHA = ['a', 'b', 'é', '中', '&', '<', '>', '"', "'", ']', ' ', 'x&y', '<b>', 'a"b', "it's", ']]>', 'a[b[0]]>1', '-->', '&amp;', '&#60;']
 class G:
     def __init__(self, rng): self.rng = rng; self.k = 0; self.tokens = []; self.notes = []; self.hot = False; self.sink = None
     def word(self):
@@ -79,10 +79,10 @@ class G:
         if depth > 2: return self.para()
         items = ''.join('<text:list-item>%s</text:list-item>' % (self.para() + (self.sublist(depth + 1) if self.rng.random() < 0.3 else '')) for _ in range(self.rng.randint(1, 2)))
         return '<text:list>%s</text:list>' % items
-    def block(self, depth=0):
-        r = self.rng.random()
+    def block(self, depth=0, r=None, level=None):
+        r = self.rng.random() if r is None else r
         if r < 0.4 or depth > 2: return self.para()
-        if r < 0.55: return '<text:h text:outline-level="%d">%s</text:h>' % (self.rng.choice([1, 2, 3, 6, 10]), self.inline())
+        if r < 0.55: return '<text:h text:outline-level="%d">%s</text:h>' % (level or self.rng.randint(1, 10), self.inline())
         if r < 0.7:
             items = ''.join('<text:list-item>%s</text:list-item>' % (self.para() + (self.sublist(depth + 1) if self.rng.random() < 0.3 else '')) for _ in range(self.rng.randint(1, 3)))
             return '<text:list text:style-name="L1">%s</text:list>' % items
@@ -111,9 +111,14 @@ class G:
             return '<text:p>%s<draw:frame draw:name="%s" text:anchor-type="as-char" svg:width="5cm" svg:height="2cm"><draw:text-box>%s</draw:text-box></draw:frame>%s</text:p>' % (before, name, box, after)
         return '<text:p><draw:frame draw:name="%s" svg:width="1cm" svg:height="1cm"><draw:image xlink:href="Pictures/p1.png" xlink:type="simple"/><svg:title>%s</svg:title></draw:frame></text:p>' % (self.attr(), self.title())
 
-def make_doc(rng, kind='text'):
+FORCED = [0.1, 0.5, 0.6, 0.8, 0.9, 0.945, 0.99]          # one block of every kind in turn, headings of every level in turn
+def make_doc(rng, kind='text', i=0):
     g = G(rng)
-    body = ''.join(g.block() for _ in range(rng.randint(1, 5))) if kind == 'text' else ''
+    if kind == 'text':
+        body = ''.join(g.block() for _ in range(rng.randint(0, 3)))
+        body += g.block(r=FORCED[i % len(FORCED)]) + g.block(r=0.5, level=i % 10 + 1)
+        body += ''.join(g.block() for _ in range(rng.randint(0, 2)))
+    else: body = ''
     meta = ('<meta:generator>Other/1.0</meta:generator><dc:title>%s</dc:title><dc:language>%s</dc:language><dc:creator>%s</dc:creator><meta:keyword>%s</meta:keyword>'
             % (P.xml_text(rng.choice(['Title', 'A & B', 'x <y>', 'q"uote'])), P.xml_text(rng.choice(['en', 'en-US', 'e"n', 'x&y'])),
                P.xml_text(rng.choice(['Me', 'O\'Neil', 'a"b', 'A & B <c>'])), P.xml_text(rng.choice(['k', 'k&l']))))
@@ -224,7 +229,7 @@ def run(ctx):
             if kind != 'text':
                 # body tokens of a spreadsheet/presentation come from the paragraphs generated inside make_doc
                 pass
-            data, g = make_doc(ctx.rng, kind)
+            data, g = make_doc(ctx.rng, kind, i)
             fn = os.path.join(tmpdir, 'd%d.od%s' % (i, {'text': 't', 'spreadsheet': 's', 'presentation': 'p'}[kind]))
             open(fn, 'wb').write(data)
             case = {'i': i, 'seed': ctx.seed, 'kind': kind, 'content.xml': P.read_package(data)['members']['content.xml'].decode('utf-8')[-1500:]}
